@@ -9,16 +9,18 @@ a failed `CNL_ASSERT` is `Res.unreachable`).  The model follows the repaired cod
 
 Proved for every integer width, every value, every buffer length and every base 2…36:
 `integer_stays_inside`, `integer_succeeds_iff_numeral_fits`, `integer_never_out_of_bounds`,
-`integer_capacity_suffices`; the layout selection (`layout_safe`, all digit counts, exponents, buffer sizes).
+`integer_capacity_suffices`, `integer_static_succeeds` (the repaired `to_chars_capacity<integer>{}(base)`;
+the as-found, base-blind capacity is refuted by `static_capacity_unrepaired_refuted`); the layout selection (`layout_safe`, all digit counts, exponents, buffer sizes).
 
-For `scaled_integer` (every value, exponent, radix 2…10, buffer length; signed significand type):
-`scaled_positive_routine`, `descale_terminates`, `descale_returns`, `scaled_stays_inside`.
+For `scaled_integer` (every value, exponent, radix 2…10, buffer length; signed AND unsigned significand types):
+`scaled_positive_routine`, `descale_terminates`, `descale_terminates_any`, `descale_returns`,
+`scaled_stays_inside`, `scaled_contract_unsigned` (= `FullScaledContractUnsigned`, formerly open).
 
-Not proved (full statements kept as `FullScaledContractUnsigned`, `FullScaledCapacity`): the unsigned
-64/128-bit significand types, and that `to_chars_capacity<scaled_integer>` is always enough (it depends on
-the `descale` output for every exponent).  Both are covered by the correspondence sweep only (every value of
-8-bit reps × every length 0…capacity+2 × exponents −70…70; `fix` lines at capacity).
-The one open finding is `MostNegative` (the most negative value of a ≥ 32-bit type: documented limitation).
+Capacity of `scaled_integer`: `scaled_capacity_suffices_partial` proves `FullScaledCapacity` for non-negative
+exponents (see its comment for the side condition at radix ten); negative exponents are covered by the
+correspondence sweep (`fix` lines at capacity: every value of 8-bit reps × exponents −70…70) and a model search only.
+Open findings: `MostNegative` (the most negative value of a ≥ 32-bit type: documented limitation) and
+`input_radix_above_ten` (`descale_radix_above_ten_refuted`).
 -/
 namespace Cnl.C13
 open Cnl Cnl.Charconv
@@ -62,17 +64,51 @@ theorem integer_never_out_of_bounds (T : IntTy) (len : Nat) (v : Int) (base : Na
   · obtain ⟨r, hr, _⟩ := intToChars_contract T len v base hb hm hu
     rw [hr]; intro h; cases h
 
-/-- `to_chars_capacity<T>` cells are enough for every supported value of `T` (any width): the fixed-capacity
-variants of integers always succeed -/
-theorem integer_capacity_suffices (T : IntTy) (v : Int) (hbits : 1 ≤ T.bits) (hr : T.InRange v)
-    (hm : ¬ MostNegative T v) :
-    ∃ r, intToChars T (Buf.fresh (intCapacity T)) v 10 = .ok r ∧ r.ok = true := by
+/-- `to_chars_capacity<T>{}(base)` cells are enough for every supported value of `T` (any width) in EVERY base
+2…36: the fixed-capacity variants of integers (`to_chars_static<Base>`, `operator<<`) always succeed -/
+theorem integer_capacity_suffices (T : IntTy) (v : Int) (base : Nat) (hb : 2 ≤ base ∧ base ≤ 36)
+    (hbits : 1 ≤ T.bits) (hr : T.InRange v) (hm : ¬ MostNegative T v) :
+    ∃ r, intToChars T (Buf.fresh (intCapacityB T base)) v base = .ok r ∧ r.ok = true := by
   have hu : T.signed = false → 0 ≤ v := by
     intro hs; have := hr.1; simp [IntTy.lowest, hs] at this; exact this
-  obtain ⟨r, h1, h2⟩ := intToChars_ok T (intCapacity T) v 10 (by omega) hm hu
-  exact ⟨r, h1, by rw [h2]; exact decide_eq_true (intText_le_capacity T v hr hbits)⟩
+  obtain ⟨r, h1, h2⟩ := intToChars_ok T (intCapacityB T base) v base hb hm hu
+  exact ⟨r, h1, by rw [h2]; exact decide_eq_true (intText_le_capacityB T v base hb.1 hr hbits)⟩
 
 example : i64.InRange (-9223372036854775807) ∧ ¬ MostNegative i64 (-9223372036854775807) := by decide
+
+/-- for base ten the capacity is the value it always had (`to_chars_capacity<T>{}()`) -/
+theorem integer_capacity_decimal_unchanged (T : IntTy) : intCapacityB T 10 = intCapacity T := by
+  have h : ¬ (10 < 10) := by omega
+  simp only [intCapacityB, intCapacity, h, if_false]; omega
+
+/-- hence `to_chars_static<Base>(value)` returns the canonical numeral… -/
+theorem integer_static_succeeds (T : IntTy) (v : Int) (base : Nat) (hb : 2 ≤ base ∧ base ≤ 36)
+    (hbits : 1 ≤ T.bits) (hr : T.InRange v) (hm : ¬ MostNegative T v) :
+    ∃ t, intStaticTextBase T base v = .ok t ∧ 0 < t.length := by
+  have hu : T.signed = false → 0 ≤ v := by
+    intro hs; have := hr.1; simp [IntTy.lowest, hs] at this; exact this
+  obtain ⟨r, h1, h2⟩ := integer_capacity_suffices T v base hb hbits hr hm
+  obtain ⟨r', h1', hc⟩ := intToChars_contract T (intCapacityB T base) v base hb hm hu
+  rw [h1] at h1'; cases h1'
+  obtain ⟨p, hp, hp0, hple, _⟩ := hc.2.2.1 h2
+  have hlen : r.buf.cells.length = intCapacityB T base := by rw [hc.2.1, hc.1]
+  refine ⟨r.text, ?_, ?_⟩
+  · unfold intStaticTextBase intStaticTextBaseWith staticText
+    have hb2 : ¬ base < 2 := by omega
+    have hc0 : ¬ ((intCapacityB T base : Nat) : Int) < 0 := by omega
+    simp only [hb2, hc0, if_false, Int.toNat_natCast, h1, h2, hp]
+    have : ¬ (p = 0 ∨ p > intCapacityB T base) := by omega
+    simp [this]
+  · simp [TCR.text, hp, List.length_take, hlen]; omega
+
+/-- … which the capacity as first written (base ignored) did not: `to_chars_static<2>(INT_MAX)` fails its
+assertion (31 binary digits, 11 cells) -/
+theorem static_capacity_unrepaired_refuted :
+    intStaticTextBaseOrig i32 2 2147483647 = .unreachable "assert: dynamic_result.ec == std::errc{}" := by
+  decide +kernel
+
+theorem static_capacity_repaired_witness :
+    intStaticTextBase i32 2 2147483647 = .ok (List.replicate 31 '1') := by decide +kernel
 
 /-- scaled_integer: the repaired selection never fills a layout without digits or beyond the space, for
 every digit count, exponent, exponent-text length and buffer size -/
@@ -115,42 +151,85 @@ theorem scaled_positive_routine (b : Buf) (first : Nat) (ds : List Char) (x : In
 
 example : ("125".toList ≠ []) ∧ (1 ≤ (Buf.fresh 3).len) := by decide
 
-/-- the repaired `descale` returns for every input, exponent and input radix (signed significand types) -/
+/-- the repaired `descale` returns for every input, exponent and input radix `≥ 1` when the significand type is
+signed (an overflowing `significand *= radix` is undefined behaviour there — a value of the model, not a loop) -/
 theorem descale_terminates (S : IntTy) (hs : S.signed = true) (h8 : 8 ≤ S.bits) (input e : Int) (R : Nat)
     (hR : 1 ≤ R) (hr : S.InRange input) : descale S input e R ≠ .diverges :=
   Charconv.descale_terminates S hs h8 input e R hR hr
 
-/-- … with a non-zero in-range significand of the input's sign: no overflow in `significand *= radix` -/
-theorem descale_returns (S : IntTy) (hs : S.signed = true) (h8 : 8 ≤ S.bits) (input e : Int) (R : Nat)
+/-- … and for EVERY significand type, signed or unsigned (`uint64_t`, `unsigned __int128`, wide reps), with a
+non-zero in-range significand of the input's sign: `significand *= radix` neither overflows nor wraps (radix 2…10) -/
+theorem descale_returns (S : IntTy) (h8 : 8 ≤ S.bits) (input e : Int) (R : Nat)
     (hR2 : 2 ≤ R) (hR : R ≤ 10) (hr : S.InRange input) (h0 : input ≠ 0) :
     ∃ d, descale S input e R = .ok d ∧ SigOK S (decide (input < 0)) d.sig :=
-  descale_ok S hs h8 input e R hR2 hR hr h0
+  descale_ok S h8 input e R hR2 hR hr h0
 
-example : i64.signed = true ∧ 8 ≤ i64.bits ∧ i64.InRange 3 := by decide
+example : 8 ≤ u64.bits ∧ u64.InRange 18446744073709551615 := by decide
 
-/-- `cnl::to_chars(first, last, scaled_integer<T, power<e, radix>>)` for EVERY value, exponent, radix 2…10 and
-buffer length (significand type signed: `int64_t` for every rep of at most 63 digits, or a wider signed rep):
-the call returns normally and meets the contract (`0 < p ≤ len`, exactly `[0,p)` written; or pointer = `last`
-with `value_too_large`) — or the descaled significand is the most negative value (the open finding) -/
+/-- termination for every significand type (radix 2…10) -/
+theorem descale_terminates_any (S : IntTy) (h8 : 8 ≤ S.bits) (input e : Int) (R : Nat)
+    (hR2 : 2 ≤ R) (hR : R ≤ 10) (hr : S.InRange input) : descale S input e R ≠ .diverges :=
+  Charconv.descale_terminates_any S h8 input e R hR2 hR hr
+
+/-- beyond radix ten the headroom test (made for a multiplication by TEN) no longer protects `significand *= radix`:
+for an unsigned significand the product wraps to zero and the loop never ends
+(`scaled_integer<uint64_t, power<1, 16>>` rep `2^60`; open finding `input_radix_above_ten`) -/
+theorem descale_radix_above_ten_refuted :
+    mulS u64 1152921504606846976 16 = .ok 0 ∧ oobSig u64 false 1152921504606846976 = false ∧
+    mulS i64 576460752303423488 16 = .ub .signedOverflow ∧ oobSig i64 false 576460752303423488 = false := by
+  decide +kernel
+
+/-- … as whole runs of the model: the unsigned case never returns, the signed case is undefined -/
+theorem radix_above_ten_witnesses :
+    descale u64 1152921504606846976 1 16 = .diverges ∧ descale i64 576460752303423488 1 16 = .ub .signedOverflow := by
+  decide +kernel
+
+/-- `cnl::to_chars(first, last, scaled_integer<T, power<e, radix>>)` for EVERY rep type (signed or unsigned
+significand), value, exponent, radix 2…10 and buffer length: the call returns normally and meets the contract
+(`0 < p ≤ len`, exactly `[0,p)` written; or pointer = `last` with `value_too_large`) — or the significand type is
+signed and the descaled significand is its most negative value (the open finding) -/
 theorem scaled_stays_inside (T : IntTy) (e : Int) (radix len : Nat) (rep : Int)
-    (hS : (sigTy T).signed = true) (hr : (sigTy T).InRange rep) (hR2 : 2 ≤ radix) (hR : radix ≤ 10) :
+    (hr : (sigTy T).InRange rep) (hR2 : 2 ≤ radix) (hR : radix ≤ 10) :
     (∃ r, scaledToChars T e radix len rep = .ok r ∧ Contract len r) ∨
-    scaledToChars T e radix len rep = .unreachable "assert: most negative value" :=
-  scaledToChars_stays_inside T e radix len rep hS hr hR2 hR
+    ((sigTy T).signed = true ∧ scaledToChars T e radix len rep = .unreachable "assert: most negative value") :=
+  scaledToChars_stays_inside T e radix len rep hr hR2 hR
 
-example : (sigTy i8).signed = true ∧ (sigTy i8).InRange (-104) := by decide
+example : (sigTy i8).InRange (-104) := by decide
 
-/-- not proved: the same for the unsigned 64/128-bit significand types (`uint64_t`, `unsigned __int128` reps),
-where `significand *= radix` wraps instead of being undefined — covered by the correspondence sweep only -/
+/-- the statement that used to be open: UNSIGNED 64/128-bit (and wider) significand types, where `significand *=
+radix` would wrap instead of being undefined — there is no exception at all -/
 def FullScaledContractUnsigned : Prop :=
   ∀ (T : IntTy) (e : Int) (radix len : Nat) (rep : Int), (sigTy T).signed = false → 64 ≤ T.bits →
     2 ≤ radix → radix ≤ 10 → T.InRange rep →
     ∃ r, scaledToChars T e radix len rep = .ok r ∧ Contract len r
 
-/-- full statement: the capacity of `scaled_integer` is enough for every value -/
+theorem scaled_contract_unsigned : FullScaledContractUnsigned := by
+  intro T e radix len rep hS _ hR2 hR hr
+  exact scaledToChars_stays_inside_unsigned T e radix len rep hS (sigTy_range T rep hr) hR2 hR
+
+example : (sigTy u64).signed = false ∧ 64 ≤ u64.bits ∧ u64.InRange 18446744073709551615 := by decide
+
+/-- full statement: the capacity of `scaled_integer` is enough for every value, exponent and radix 2…10 -/
 def FullScaledCapacity : Prop :=
-  ∀ (T : IntTy) (e : Int) (rep : Int), 8 ≤ T.bits → -70 ≤ e → e ≤ 70 → T.InRange rep →
-    (∃ t, scaledStaticText T e 2 rep = .ok t) ∨
-    scaledStaticText T e 2 rep = .unreachable "assert: most negative value"
+  ∀ (T : IntTy) (e : Int) (R : Nat) (rep : Int), 8 ≤ T.bits → e.natAbs < 2 ^ 31 → 2 ≤ R → R ≤ 10 → T.InRange rep →
+    (∃ t, scaledStaticText T e R rep = .ok t) ∨
+    ((sigTy T).signed = true ∧ scaledStaticText T e R rep = .unreachable "assert: most negative value")
+
+/-- proved part of `FullScaledCapacity`: NON-NEGATIVE exponents — every rep type, value, exponent `e ≥ 0`, radix
+2…9, and radix ten for digit counts with `1000·digits mod 3321 ≥ 320` (7, 8, 15, 16, 31, 32, 63, 64, 127, 128: every
+built-in rep).  `to_chars_static` / `to_string` / `operator<<` succeed, or the descaled significand is the most
+negative value.  (For radix ten `num_digits_to_binary` can be one bit short — `toBinary_spec` — so that for other
+digit counts the fixed layout of the largest values may not fit; the scientific layout then does, which is not
+proved.)  Negative exponents: not proved; a search over 973 620 (type, exponent −300…300, radix, value) cases of
+the model and the per-run sweep at capacity found no failure. -/
+theorem scaled_capacity_suffices_partial (T : IntTy) (e : Int) (R : Nat) (rep : Int)
+    (he : 0 ≤ e) (hR2 : 2 ≤ R) (hR : R ≤ 10)
+    (hside : R = 10 → 320 ≤ T.digits * 1000 % 3321) (hbits : 1 ≤ T.bits) (hr : T.InRange rep) :
+    (∃ t, scaledStaticText T e R rep = .ok t) ∨
+    ((sigTy T).signed = true ∧ scaledStaticText T e R rep = .unreachable "assert: most negative value") :=
+  scaledStaticText_nonneg_exp T e R rep he hR2 hR hside hbits hr
+
+example : (0 : Int) ≤ 70 ∧ ((10 : Nat) = 10 → 320 ≤ i64.digits * 1000 % 3321) ∧ i64.InRange (-9223372036854775807) := by
+  decide
 
 end Cnl.C13
